@@ -824,11 +824,21 @@ class PGPUID(ParentRef):
         if self.is_ua and other.is_uid:
             return False
 
-    def __or__(self, other):
+    def __or__(self, other, from_sib=False):
         if isinstance(other, PGPSignature):
             self._signatures.insort(other)
             if self.parent is not None and self in self.parent._uids:
                 self.parent._uids.resort(self)
+
+                # keep the identity of a living public twin in step
+                sib = self.parent._sibling
+                sib = sib() if isinstance(sib, weakref.ref) else None
+                if sib is not None and not from_sib:
+                    mine = self._uid.__bytearray__()
+                    for twin in sib._uids:
+                        if twin._uid.__bytearray__() == mine:
+                            twin.__or__(copy.copy(other), True)
+                            break
 
             return self
 
@@ -1487,7 +1497,7 @@ class PGPKey(Armorable, ParentRef, PGPObject):
         """
         if self.is_public:
             return self
-        if self._sibling is None or isinstance(self._sibling, weakref.ref):
+        if self._sibling is None or self._sibling() is None:
             # create a new key shell
             pub = PGPKey()
             pub.ascii_headers = self.ascii_headers.copy()
@@ -1867,6 +1877,16 @@ class PGPKey(Armorable, ParentRef, PGPObject):
         u._parent = None
         self._uids.remove(u)
 
+        # and from a living public twin
+        sib = self._sibling() if isinstance(self._sibling, weakref.ref) else None
+        if sib is not None and self.is_primary:
+            mine = u._uid.__bytearray__()
+            for twin in list(sib._uids):
+                if twin._uid.__bytearray__() == mine:
+                    twin._parent = None
+                    sib._uids.remove(twin)
+                    break
+
     def add_subkey(self, key, **prefs):
         """
         Add a key as a subkey to this key.
@@ -1901,6 +1921,11 @@ class PGPKey(Armorable, ParentRef, PGPObject):
         ##TODO: skip this step if the key already has a subkey binding signature
         bsig = self.bind(key, **prefs)
         key |= bsig
+
+        # a living public twin gets the public half of the new subkey
+        sib = self._sibling() if isinstance(self._sibling, weakref.ref) else None
+        if sib is not None:
+            sib.__or__(key.pubkey, True)
 
     def _get_key_flags(self, user=None):
         if self.is_primary:
